@@ -1016,7 +1016,9 @@ LEMMAS['mask_index'] = dict(
     ensures=['0 <= MaskCnt(m, n) <= n',
              'forall(k, 0, MaskCnt(m, n), 0 <= MaskIdx(m, n)[k] < n and m[MaskIdx(m, n)[k]] != 0 and MaskPos(m, n)[MaskIdx(m, n)[k]] == k)',
              'forall(k, 0, MaskCnt(m, n), forall(k2, k + 1, MaskCnt(m, n), MaskIdx(m, n)[k] < MaskIdx(m, n)[k2]))',
-             'forall(c, 0, n, implies(m[c] != 0, 0 <= MaskPos(m, n)[c] < MaskCnt(m, n) and MaskIdx(m, n)[MaskPos(m, n)[c]] == c))'],
+             'forall(c, 0, n, implies(m[c] != 0, 0 <= MaskPos(m, n)[c] < MaskCnt(m, n) and MaskIdx(m, n)[MaskPos(m, n)[c]] == c))',
+             'MaskPos(m, n)[0] == 0', 'MaskPos(m, n)[n] == MaskCnt(m, n)',
+             'forall(c, 0, n, MaskPos(m, n)[c + 1] == MaskPos(m, n)[c] + b2i(m[c] != 0))'],
 )
 
 LEMMAS['inq_exists'] = dict(
@@ -1051,4 +1053,32 @@ LEMMAS['acq_unit'] = dict(
     requires=['0 <= i', 'm >= 2 * n'],
     ensures=['AcqSum(g, Unit(i, m), n) == ((g[i + 1] if i % 2 == 0 else 0 - g[i - 1]) if i < 2 * n else 0)'],
     induction='n',
+)
+
+
+# ---- a rotation of a subsystem is the rotation of the whole register by the padded generator
+_E = 'Expand(g, Repeat2(mask), 2 * N)'
+_Cx = 'Compress(x, Repeat2(mask), 2 * N)'
+_P2 = 'MaskPos(Repeat2(mask), 2 * N)'
+LEMMAS['expand_sums'] = dict(
+    doc='symplectic form and product phase with a padded string = those of the compressed string with the small string',
+    params=[('g', 'int1'), ('x', 'int1'), ('mask', 'int1'), ('N', 'int'), ('K', 'int')],
+    requires=['len(mask) == N', '0 <= K <= N'],
+    ensures=['%s[2 * K] %% 2 == 0' % _P2, '0 <= %s[2 * K]' % _P2,
+             'AcqSum(%s, x, K) == AcqSum(g, %s, %s[2 * K] // 2)' % (_E, _Cx, _P2),
+             'IpowSum(x, %s, K) == IpowSum(%s, g, %s[2 * K] // 2)' % (_E, _Cx, _P2)],
+    induction='K',
+    uses=[('lemma', 'mask_index', ['Repeat2(mask)', '2 * N'])],
+    uses_step=[('lemma', 'mask_index', ['Repeat2(mask)', '2 * N']),
+               ('assert', 'Repeat2(mask)[2 * K - 2] == mask[K - 1] and Repeat2(mask)[2 * K - 1] == mask[K - 1]'),
+               ('assert', '%(P)s[2 * K - 1] == %(P)s[2 * K - 2] + b2i(mask[K - 1] != 0)' % dict(P=_P2)),
+               ('assert', '%(P)s[2 * K] == %(P)s[2 * K - 1] + b2i(mask[K - 1] != 0)' % dict(P=_P2)),
+               ('assert', 'implies(mask[K - 1] != 0, MaskIdx(Repeat2(mask), 2 * N)[%(P)s[2 * K - 2]] == 2 * K - 2 and '
+                          'MaskIdx(Repeat2(mask), 2 * N)[%(P)s[2 * K - 1]] == 2 * K - 1)' % dict(P=_P2)),
+               ('assert', '%(E)s[2 * K - 2] == (g[%(P)s[2 * K - 2]] if mask[K - 1] != 0 else 0) and '
+                          '%(E)s[2 * K - 1] == (g[%(P)s[2 * K - 1]] if mask[K - 1] != 0 else 0)' % dict(E=_E, P=_P2)),
+               ('assert', 'implies(mask[K - 1] != 0, %(C)s[%(P)s[2 * K - 2]] == x[2 * K - 2] and %(C)s[%(P)s[2 * K - 1]] == x[2 * K - 1])' % dict(C=_Cx, P=_P2)),
+               ('assert', '%(P)s[2 * K - 2] %% 2 == 0 and 0 <= %(P)s[2 * K - 2]' % dict(P=_P2)),
+               ('focus',),
+               ],
 )
